@@ -74,9 +74,9 @@ func rawPlan(seed int64, sess int, id uint64, side int, budget int) epPlan {
 	if rng.Intn(4) == 0 {
 		p.SlowRead = 1 + rng.Intn(8)
 	}
-	if rng.Intn(8) == 0 {
+	if rng.Intn(5) == 0 {
 		p.Third = 1 + rng.Intn(2)
-		p.ThirdDelay = rng.Intn(20000)
+		p.ThirdDelay = rng.Intn(8000)
 	}
 	p.AfterEOF = rng.Intn(3) == 0
 	return p
@@ -106,6 +106,7 @@ type endpoint struct {
 	problems     []problem
 	zeroWrites   int
 	partialWrite int
+	wDone, rDone bool // the writer / reader goroutine has returned
 }
 
 type problem struct {
@@ -360,8 +361,20 @@ func (cs *c23Session) startEndpoint(st *multiplexing.Stream, side int, opener bo
 	base := int64(mix64(uint64(cs.seed) ^ mix64(uint64(cs.idx)*7919+id*4+uint64(side))))
 	var wg sync.WaitGroup
 	wg.Add(2)
-	go func() { defer wg.Done(); cs.writer(e, rand.New(rand.NewSource(base+1))) }()
-	go func() { defer wg.Done(); cs.reader(e, rand.New(rand.NewSource(base+2))) }()
+	go func() {
+		defer wg.Done()
+		cs.writer(e, rand.New(rand.NewSource(base+1)))
+		e.mu.Lock()
+		e.wDone = true
+		e.mu.Unlock()
+	}()
+	go func() {
+		defer wg.Done()
+		cs.reader(e, rand.New(rand.NewSource(base+2)))
+		e.mu.Lock()
+		e.rDone = true
+		e.mu.Unlock()
+	}()
 	if e.plan.Third != 0 {
 		wg.Add(1)
 		go func() {
@@ -530,6 +543,15 @@ wait:
 	cancel()
 	if res.Outcome != "completed" {
 		s.shutdown()
+		// Let the calls that the shutdown released return, so that the journals are final.
+		for end := time.Now().Add(3 * time.Second); time.Now().Before(end); time.Sleep(2 * time.Millisecond) {
+			cs.mu.Lock()
+			st := cs.started
+			cs.mu.Unlock()
+			if cs.finished.Load() >= int64(st) {
+				break
+			}
+		}
 	}
 
 	// The oracle over the journals.
@@ -595,6 +617,12 @@ func (cs *c23Session) judge(w, rd *endpoint, completed bool, tShutdown time.Time
 	rd.mu.Lock()
 	defer w.mu.Unlock()
 	defer rd.mu.Unlock()
+	if !w.wDone || !rd.rDone {
+		// A call is still outstanding (only possible in an aborted session):
+		// the journals are not final and cannot be compared.
+		r.Count("directions_not_judged", 1)
+		return rd.readBytes, rd.sawEOF
+	}
 	r.Eval(1)
 	report := func(rule, what string) {
 		wt := witness()
